@@ -501,7 +501,7 @@ func oneCase(run *harness.Run, key string, c combo, tmp string, n int) {
 		run.Inconclusive("%s: the tool did not stop", key)
 	}
 	if len(s2.Psync) > 0 || s2.Ended == "refused" {
-		run.Distinct(fmt.Sprintf("%s|%s|%s|%s|%s|%s", c.Src, posC, cacheC, c.Backend, c.Restart, v.Outcome))
+		run.Distinct(fmt.Sprintf("%s|%s|%s|%s|%s|drop=%v|%s", c.Src, posC, cacheC, c.Backend, c.Restart, c.Drop, v.Outcome))
 	}
 	if len(v.Findings) == 0 && s2.Ended == "sentinel" {
 		run.Sample(map[string]any{"case": key, "constructed": p.Constructed, "position": posC, "cache": cacheC, "psync": psyncStrings(s2.Psync),
